@@ -356,7 +356,9 @@ class Analysis:
                     else:
                         out += [f"enter {f.qualname}: {x}" for x in self.func_may_raise(f)[:1]]
             elif tgt[0] == "ext":
-                if n.kind == "with_exit" or tgt[1] not in extern.NON_RAISING:
+                if n.kind == "with_exit" and tgt[1] in extern.QUIET_EXIT_CMS:
+                    pass
+                elif n.kind == "with_exit" or tgt[1] not in extern.NON_RAISING:
                     out.append(f"{n.kind} of {tgt[1]}")
             else:
                 out.append(f"{n.kind} of {tgt[1].name}")
@@ -384,11 +386,36 @@ class Analysis:
                     out.append(f"subscript {ast.unparse(e)} may raise")
             elif isinstance(e, ast.Delete):
                 out.append("del may raise")
-            elif isinstance(e, ast.Attribute) and isinstance(e.ctx, ast.Load) and e.attr in ("__qualname__", "__name__") and not self._is_class_valued(func, e.value):
+            elif isinstance(e, ast.Attribute) and isinstance(e.ctx, ast.Load) and e.attr in ("__qualname__", "__name__") and not self._is_class_valued(func, e.value) and not self._dunder_guarded(func, cfg, n, e.value):
                 # functions and classes have them; arbitrary callables (instances with
                 # __call__, functools.partial, Mock, operator.methodcaller) do not
                 out.append(f"`{ast.unparse(e)}` may raise AttributeError (callable objects other than functions / classes have no {e.attr})")
         return out
+
+    def _dunder_guarded(self, func: FuncInfo, cfg: CFG, n: Node, v) -> bool:
+        """`if not hasattr(x, "__qualname__"): x = type(x)` in front of the access: afterwards x is
+        a function-like object or a class, both of which have __qualname__ and __name__."""
+        if not isinstance(v, ast.Name):
+            return False
+        for st in walk_own(func.node):
+            if not isinstance(st, ast.If) or st.orelse:
+                continue
+            t = st.test
+            if not (isinstance(t, ast.UnaryOp) and isinstance(t.op, ast.Not) and isinstance(t.operand, ast.Call) and isinstance(t.operand.func, ast.Name) and t.operand.func.id == "hasattr" and len(t.operand.args) == 2):
+                continue
+            a0, a1 = t.operand.args
+            if not (isinstance(a0, ast.Name) and a0.id == v.id and isinstance(a1, ast.Constant) and a1.value in ("__qualname__", "__name__")):
+                continue
+            ok_body = len(st.body) == 1 and isinstance(st.body[0], ast.Assign) and len(st.body[0].targets) == 1 and isinstance(st.body[0].targets[0], ast.Name) and st.body[0].targets[0].id == v.id and self._is_class_valued(func, st.body[0].value)
+            if not ok_body:
+                continue
+            tn = [x for x in cfg.live_nodes() if x.kind == "test" and x.ast is t]
+            if tn and cfg.dominates(tn[0].id, n.id):
+                # no other rebinding of x between the guard and the access
+                later = [x for x in walk_own(func.node) if isinstance(x, ast.Assign) and x is not st.body[0] and any(isinstance(tg, ast.Name) and tg.id == v.id for tg in x.targets) and x.lineno > st.lineno]
+                if not later:
+                    return True
+        return False
 
     def _is_class_valued(self, func: FuncInfo, v) -> bool:
         """The expression is known to be a class (or the receiver of the access is `type(x)`,
